@@ -4,5 +4,5 @@ Require Extraction.
 Require Import ExtrOcamlBasic.
 From SV Require Import Checkers.Driver.
 Cd "../ocaml".
-Extraction "model.ml" model_transcript verdict zlists_eqb.
+Extraction "model.ml" model_transcript verdict zlists_eqb saveload_transcript.
 Cd "../coq".
